@@ -115,7 +115,7 @@ var allReads = []string{"get", "has", "getwithindex", "getbyindex", "iterate", "
 	"versionedproof", "hash", "workinghash", "imhash", "getversioned", "getimmutable", "export"}
 
 var baseWeights = map[string]int{"set": 30, "remove": 12, "save": 18, "rollback": 3, "reopen": 7, "prune": 7, "prune_refuse": 1,
-	"lvfo": 3, "dvf": 2, "setnil": 1, "read": 0, "hop": 0, "iter": 0, "pin": 0, "unpin": 0, "lvfo_invalid": 0, "replay": 0, "hold": 0, "reload": 0, "reload_invalid": 0}
+	"lvfo": 3, "dvf": 2, "setnil": 1, "read": 0, "hop": 0, "iter": 0, "pin": 0, "unpin": 0, "lvfo_invalid": 0, "replay": 0, "hold": 0, "reload": 0, "reload_invalid": 0, "setinit": 0}
 
 func weights(over map[string]int) map[string]int {
 	m := map[string]int{}
@@ -176,6 +176,9 @@ func GenOp(t *rapid.T, w *World, p *Profile) Op {
 		rollbackOK = false
 		w.Excl["F3"]++
 	}
+	if w.LiveInitAbove {
+		rollbackOK = false // (LoadVersion on this handle is documented to fail: initial version above the first stored one)
+	}
 	add("lvfo", rollbackOK)
 	add("lvfo_invalid", w.Latest > 0)
 	add("dvf", rollbackOK)
@@ -193,8 +196,9 @@ func GenOp(t *rapid.T, w *World, p *Profile) Op {
 	if reloadOK && Open("F2") && !w.Cfg.SkipFast && !w.indexCurrentOnDisk() {
 		reloadOK = false // steer around F2 as for reopen
 	}
-	add("reload", reloadOK)
-	add("reload_invalid", w.Latest > 0)
+	add("reload", reloadOK && !w.LiveInitAbove)
+	add("reload_invalid", w.Latest > 0 && !w.LiveInitAbove)
+	add("setinit", !w.Dirty)
 	// the importer allocates a nonce table of size version+1: keep imports to realistic version numbers
 	add("hop", w.Latest > 0 && !w.Dirty && w.Latest < 1<<20)
 	total := 0
@@ -285,6 +289,11 @@ func GenOp(t *rapid.T, w *World, p *Profile) Op {
 			return Op{Kind: "pin", N: vs[0]}
 		}
 		return Op{Kind: "pin", N: rapid.SampledFrom(w.Retained()).Draw(t, "pinv")}
+	case "setinit":
+		if w.Latest > 0 && rapid.Bool().Draw(t, "setinitAbove") {
+			return Op{Kind: "setinit", N: w.Latest + int64(rapid.IntRange(1, 5).Draw(t, "setinitD"))}
+		}
+		return Op{Kind: "setinit", N: int64(rapid.SampledFrom([]uint64{1, 2, 7, 64, 128}).Draw(t, "setinitV"))}
 	case "reload":
 		if rapid.Bool().Draw(t, "reloadLatest") {
 			return Op{Kind: "reload", N: 0}
